@@ -72,3 +72,15 @@ Definition res_eqb (a b : pyres str) : bool :=
   | _, _ => false
   end.
 Definition pair_eqb (a b : str * str) : bool := str_eqb (fst a) (fst b) && str_eqb (snd a) (snd b).
+
+(* ---------- `stepup build TARGET`: tui._normalize_targets and its call site ---------- *)
+(* One raw target when os.getcwd() is `seen`: Path(raw).absolute().relpath(root).normpath()
+   (the trailing separator of a directory target is re-attached and does not change the file). *)
+Definition normalize_target (seen root raw : str) : str :=
+  normpath (plib_relpath seen (abspath seen raw) root).
+(* The working directory _normalize_targets sees at its call sites: the directory the command was typed
+   in while no call site comes after a `cd`, the project root (where _async_build changes to) otherwise.
+   targets_normalized_in_user_cwd is generated from tui.py. *)
+Definition seen_cwd (user_cwd root : str) : str :=
+  if targets_normalized_in_user_cwd then user_cwd else root.
+Definition cli_target (user_cwd root raw : str) : str := normalize_target (seen_cwd user_cwd root) root raw.
